@@ -585,6 +585,82 @@ theorem decode_iff (raw v : Str) : decode raw = .ok v ↔ Denotes raw v := by
     rw [decode_wrapped q body hq]
     exact (unesc_iff body v).2 hb
 
+/-! ## the Cypher debug comment of FromCypher -/
+
+theorem go_lineC_nl_dashes (x : Str) : go .lineC ('\n' :: '-' :: '-' :: ' ' :: x) = go .lineC x := by
+  have h1 : step .lineC '\n' = ([], .top) := by decide
+  have h2 : step .top '-' = ([], .opDash []) := by decide
+  have h3 : step (.opDash []) '-' = ([], .lineC) := by decide
+  have h4 : step .lineC ' ' = ([], .lineC) := by decide
+  rw [go_cons, h1, go_cons, h2, go_cons, h3, go_cons, h4]; rfl
+
+theorem go_lineC_other (c : Char) (x : Str) (h0 : c ≠ NUL) (h1 : c ≠ '\n') (h2 : c ≠ '\r') :
+    go .lineC (c :: x) = go .lineC x := by
+  rw [go_cons, step_ne_nul _ _ h0]
+  simp [stepN, isNl, h1, h2]
+
+theorem go_lineC_nlGo (t rest : Str) (b : Bool) (h : NUL ∉ t) : go .lineC (nlGo b t ++ rest) = go .lineC rest := by
+  induction t generalizing b with
+  | nil => simp [nlGo]
+  | cons c cs ih =>
+    have hc : c ≠ NUL := fun e => h (by simp [e])
+    have hcs : NUL ∉ cs := fun e => h (by simp [e])
+    by_cases h1 : c = '\n'
+    · subst h1
+      cases b with
+      | true => simp only [nlGo, if_true]; exact ih _ hcs
+      | false =>
+        simp only [nlGo, if_true, Bool.false_eq_true, if_false, List.cons_append]
+        rw [go_lineC_nl_dashes]; exact ih _ hcs
+    · by_cases h2 : c = '\r'
+      · subst h2
+        have : ('\r' : Char) ≠ '\n' := by decide
+        simp only [nlGo, this, if_false, if_true, List.cons_append]
+        rw [go_lineC_nl_dashes]; exact ih _ hcs
+      · simp only [nlGo, h1, h2, if_false, List.cons_append]
+        rw [go_lineC_other c _ hc h1 h2]; exact ih _ hcs
+
+theorem lex_commentHeader (text sql : Str) (strip : Bool) (h : NUL ∉ text) :
+    lex (commentHeader text strip ++ sql) = lex sql := by
+  unfold lex commentHeader
+  have h1 : step .top '-' = ([], .opDash []) := by decide
+  have h2 : step (.opDash []) '-' = ([], .lineC) := by decide
+  have h3 : step .lineC ' ' = ([], .lineC) := by decide
+  have h4 : step .lineC '\n' = ([], .top) := by decide
+  show go .top ('-' :: '-' :: ' ' :: ((nlGo false text ++ ['\n']) ++ sql)) = go .top sql
+  rw [go_cons, h1, go_cons, h2, go_cons, h3]
+  show go .lineC ((nlGo false text ++ ['\n']) ++ sql) = go .top sql
+  rw [List.append_assoc, go_lineC_nlGo text _ false h]
+  show go .lineC ('\n' :: sql) = go .top sql
+  rw [go_cons, h4]; rfl
+
+theorem linesCommented_nlGo (t rest : Str) (b : Bool) (hrest : linesCommented .mid rest = true) :
+    linesCommented .mid (nlGo b t ++ rest) = true := by
+  induction t generalizing b with
+  | nil => simpa [nlGo] using hrest
+  | cons c cs ih =>
+    by_cases h1 : c = '\n'
+    · subst h1
+      cases b with
+      | true => simp only [nlGo, if_true]; exact ih _
+      | false =>
+        simp only [nlGo, if_true, Bool.false_eq_true, if_false, List.cons_append]
+        simp [linesCommented, isNl, ih]
+    · by_cases h2 : c = '\r'
+      · subst h2
+        have : ('\r' : Char) ≠ '\n' := by decide
+        simp only [nlGo, this, if_false, if_true, List.cons_append]
+        simp [linesCommented, isNl, ih]
+      · simp only [nlGo, h1, h2, if_false, List.cons_append]
+        simp [linesCommented, isNl, h1, h2, ih]
+
+theorem linesCommented_header (text : Str) (strip : Bool) : linesCommented .start (commentHeader text strip) = true := by
+  unfold commentHeader
+  simp only [linesCommented, if_true]
+  have hsp : isNl ' ' = false := by decide
+  simp only [hsp, Bool.false_eq_true, if_false]
+  exact linesCommented_nlGo text ['\n'] false (by decide)
+
 /-! ## LIKE patterns -/
 
 theorem likeLiteral_likeEsc (s : Str) : likeLiteral (likeEsc s) = some s := by
